@@ -83,8 +83,9 @@ def build(variant, quiet=True):
     inc = ['-I' + os.path.join(REPO, 'SRC')]
     if os.path.exists(lib):
         return lib, inc, flags, th
-    # drop stale builds of the same variant
-    for old in glob.glob(os.path.join(BUILD, 'lib', variant + '-*')):
+    # drop stale builds of the same variant (keep the 3 most recent: parallel users may still link against them)
+    olds = sorted((o for o in glob.glob(os.path.join(BUILD, 'lib', variant + '-*')) if '.tmp' not in o), key=os.path.getmtime)
+    for old in olds[:-3]:
         shutil.rmtree(old, ignore_errors=True)
     tmp = d + '.tmp%d' % os.getpid()
     os.makedirs(tmp, exist_ok=True)
